@@ -1,7 +1,8 @@
 import Prom.HP.Pres2
 namespace Hp
 
-theorem step_apply {k : Nat} {s : St} (pre post : List Task) (o : Obs) (b : Bool) (c : Nat) (a : Int)
+/-- applying the HEAD entry of a running observation's list keeps the invariant -/
+theorem step_apply_head {k : Nat} {s : St} (pre post : List Task) (o : Obs) (b : Bool) (c : Nat) (a : Int)
     (rest : List (Nat × Int))
     (ht : s.tasks = pre ++ Task.obsRun o b ((c, a) :: rest) :: post)
     (I : Inv k s) : Inv k { s with
@@ -35,6 +36,53 @@ theorem step_apply {k : Nat} {s : St} (pre post : List Task) (o : Obs) (b : Bool
     · exact apply_phase _ _ _ _ _ _ _ _ _ _ _ _ _ _ owf.1 t (I.phase t (by simp [h]))
     · trivial
     · exact apply_phase _ _ _ _ _ _ _ _ _ _ _ _ _ _ owf.1 t (I.phase t (by simp [h]))
+
+/-- the invariant does not look at the ORDER of the updates a running observation still has to
+    apply: replacing its list by one with the same contributions keeps `Inv` -/
+theorem inv_obsRun_congr {k : Nat} {s : St} (pre post : List Task) (o : Obs) (b : Bool)
+    (l l' : List (Nat × Int))
+    (ht : s.tasks = pre ++ Task.obsRun o b l :: post)
+    (hwf : WfUpd k l → WfUpd k l') (hc : ∀ c, contribL l' c = contribL l c)
+    (I : Inv k s) : Inv k { s with tasks := pre ++ Task.obsRun o b l' :: post } := by
+  have hW : ∀ b', pendW b' (pre ++ Task.obsRun o b l' :: post) = pendW b' s.tasks := by
+    intro b'; simp [ht, tw]
+  have hC : ∀ b' c, pend b' c (pre ++ Task.obsRun o b l' :: post) = pend b' c s.tasks := by
+    intro b' c; simp [ht, tc, hc]
+  have owf := I.twf (Task.obsRun o b l) (by simp [ht])
+  refine ⟨?_, I.awf, I.zero, ?_, ?_, ?_, I.snapsOk⟩
+  · intro t h
+    simp only [List.mem_append, List.mem_cons] at h
+    rcases h with h | rfl | h
+    · exact I.twf t (by simp [ht, h])
+    · exact ⟨owf.1, hwf owf.2⟩
+    · exact I.twf t (by simp [ht, h])
+  · have := I.act; simp [ht, active] at this ⊢; exact this
+  · intro hl
+    exact normal_congr s _ s.lock hW hC (I.normal hl)
+  · intro t h
+    simp only [List.mem_append, List.mem_cons] at h
+    rcases h with h | rfl | h
+    · exact phase_congr s _ s.lock hW hC t (I.phase t (by simp [ht, h]))
+    · trivial
+    · exact phase_congr s _ s.lock hW hC t (I.phase t (by simp [ht, h]))
+
+/-- applying ANY entry of the list: move it to the front (`inv_obsRun_congr`), then `step_apply_head` -/
+theorem step_apply {k : Nat} {s : St} (pre post : List Task) (o : Obs) (b : Bool) (c : Nat) (a : Int)
+    (l1 l2 : List (Nat × Int))
+    (ht : s.tasks = pre ++ Task.obsRun o b (l1 ++ (c, a) :: l2) :: post)
+    (I : Inv k s) : Inv k { s with
+        tasks := pre ++ Task.obsRun o b (l1 ++ l2) :: post
+        sh := modSh s.sh b (fun x => { x with cell := setCell x.cell c (x.cell c + a) }) } := by
+  have I' := inv_obsRun_congr pre post o b (l1 ++ (c, a) :: l2) ((c, a) :: (l1 ++ l2)) ht
+    (fun h p hp => h p (by
+      simp only [List.mem_cons, List.mem_append] at hp ⊢
+      rcases hp with hp | hp | hp
+      · exact .inr (.inl hp)
+      · exact .inl hp
+      · exact .inr (.inr hp)))
+    (fun c' => (contribL_middle l1 l2 (c, a) c').symm) I
+  exact step_apply_head (s := { s with tasks := pre ++ Task.obsRun o b ((c, a) :: (l1 ++ l2)) :: post })
+    pre post o b c a (l1 ++ l2) rfl I'
 
 theorem publish_phase {k : Nat} (hot : Bool) (n : Nat) (sh : Bool → Shard) (lock : Bool)
     (pre post : List Task) (claimed : List Obs) (asg : Bool → List Obs)
@@ -115,7 +163,7 @@ theorem inv_step {k : Nat} {s s' : St} (I : Inv k s) (h : Step k s s') : Inv k s
   | spawnCol pre post ht => exact step_spawnCol pre post ht I
   | release pre post ht => exact step_release pre post ht I
   | claim pre post o ht => exact step_claim pre post o ht I
-  | apply pre post o b c a rest ht => exact step_apply pre post o b c a rest ht I
+  | apply pre post o b c a l1 l2 ht => exact step_apply pre post o b c a l1 l2 ht I
   | publish pre post o b ht => exact step_publish pre post o b ht I
   | acquire pre post ht hl => exact step_acquire pre post ht hl I
   | flip pre post ht => exact step_flip pre post ht I
